@@ -103,7 +103,6 @@ structure Covers (tol : α) (A : List String) : Prop where
   spanIdx : mSpanIdx ∈ A
   spanIns : mSpanIns ∈ A
   edgeIdx : mEdgeIdx ∈ A
-  sub : mSub ∈ A
   nan : NoNaN α ∨ mNaN ∈ A
   up : NextUpOk α ∨ mAssert ∈ A
   horiz : HorizAgree tol ∨ mSplice ∈ A
@@ -145,7 +144,7 @@ theorem tessellatorLoop_safe (hA : Covers tol A) : ∀ f : Nat,
     have ih := tessellatorLoop_safe hA f
     have h1 := initializeEvents_safe (α := α) (tol := tol) (A := A)
     have h2 := processEvents_safe (α := α) (tol := tol) (A := A) hA.spanIdx hA.spanIns hA.edgeIdx hA.up hA.horiz
-    have h3 := recoverFromError_safe (α := α) (tol := tol) (A := A) hA.sub hA.nan
+    have h3 := recoverFromError_safe (α := α) (tol := tol) (A := A) hA.nan
     unfold tessellatorLoop
     strip_mdata
     mvcgen [mark, ih, h1, h2, h3]
